@@ -62,11 +62,11 @@ CHECKS = {
  'C05': dict(
     technique='generated programs; (a) structural relocation-map check plus exhaustive abstract exploration of the loaded instruction graph taking both arms of every conditional jump; (b) exhaustive enumeration of all 2^k decision tapes per program with conditions replaced by an injected [coin] built-in, differential against the reference interpreter',
     category='exploration',
-    text='Per generated script ALL control-flow paths of the compiled image are covered twice: statically (every reachable abstract state (pc, frame stack) is visited, recursion depth <= 3) and dynamically (all 2^k condition outcomes, k = 6 quick / 10 thorough, run on the real VM). The set of scripts is sampled by Hypothesis.',
+    text='Per generated script ALL control-flow paths of the compiled image are covered twice: statically (every reachable abstract state (pc, frame stack) is visited, recursion depth <= 3) and dynamically (all 2^k condition outcomes, k = 6 quick / 8 thorough, run on the real VM). The set of scripts is sampled by Hypothesis.',
     design='DESIGN.md section 3, C05',
-    note='Static part trusts the op-code semantics table in verif/checks/c05.py (JUMP/JSR/CTX/RETURN/END/LOOP/END_LOOP) and is independent of values; dynamic part trusts the reference interpreter. Routines defined inside if/repeat bodies are a recorded open finding and are excluded from generation by construction.'),
+    note='Static part trusts the op-code semantics table in verif/checks/c05.py (JUMP/JSR/CTX/RETURN/END/LOOP/END_LOOP) and is independent of values; dynamic part trusts the reference interpreter. Routines defined inside if/repeat bodies (once an open finding) are generated again since the loader was repaired.'),
  'C06': dict(
-    technique='fuzzing with the oracle inside the target: Hypothesis token soup / mutations of valid scripts / raw noise / rule breakers by construction / valid control-heavy programs; atheris (libFuzzer) coverage-guided campaigns in the thorough tier; exception bucketing by (type, innermost bardolph frame); token-level ddmin shrinking',
+    technique='fuzzing with the oracle inside the target: Hypothesis token soup / mutations of valid scripts / raw noise / rule breakers by construction / valid control-heavy programs / loosely grammatical programs (language shapes placed without regard to context or type, ~22 % accepted) / deep nesting / files of arbitrary bytes; atheris (libFuzzer) coverage-guided campaigns in the thorough tier; exception bucketing by (type, innermost bardolph frame); token-level ddmin shrinking',
     category='exploration',
     text='Totality and validity search: every input must end in accept or a line-numbered rejection within a token-step bound; rejected texts yield no program; accepted texts are executed under an instruction budget and must not hit an internal VM fault; texts built to break one documented rule must be rejected.',
     design='DESIGN.md section 3, C06',
@@ -82,13 +82,13 @@ CHECKS = {
     category='exploration',
     text='Generated search over stage-rectangle sequences (0..8 per block, either order, omitted parts, literal / variable / expression / loop-index bounds incl. float indices), inline and block forms, default fill, all unit modes, on matrix sizes 1x1..16x4/8x8 and strips of 1..82 zones; every tile message is compared cell by cell.',
     design='DESIGN.md section 3, C15',
-    note='Trusts the reference interpreter\'s matrix model and units_exact; indices outside the device are not generated (undocumented).'),
+    note='Trusts the reference interpreter\'s matrix model and units_exact; indices outside the device are not generated (undocumented). One open finding (zone value computed by a routine that names a light) is reported as KNOWN-FINDING by a fixed case.'),
  'C18': dict(
     technique='round-trip property: capture (ScriptSnapshot and WebApp.snapshot) -> text -> production compile+run -> device state, over Hypothesis-generated populations, raw states and hostile light names',
     category='exploration',
     text='Round trip through text generation, lexing, compiling, unit handling and execution for generated populations of plain / multizone / matrix lights in arbitrary raw states; final device state must equal the captured state exactly.',
     design='DESIGN.md section 3, C18',
-    note='State is read from the simulated lifxlan devices; names contain no double quote or line break.'),
+    note='State is read from the simulated lifxlan devices; names contain no double quote or line break; the web path replays the file the shipped manifest Retrieve entry names; populations may be empty.'),
  'C14': dict(
     technique='metamorphic relation between two executions (with / without a chain of units statements) over Hypothesis-generated in-range register contents; register rewrite table checked against the documented table',
     category='exploration',
@@ -100,15 +100,15 @@ CHECKS = {
     category='exploration',
     text='Generated sequences of print / println / printf with all value kinds and field styles (anonymous, numbered incl. repeated, named, format specs), including routines that print while being evaluated as printf arguments; the exact text on sys.stdout and its interleaving with device commands are compared with the model.',
     design='DESIGN.md section 3, C19',
-    note='A single trailing newline at the end and a space after a printf text that ends in a newline are accepted either way.'),
+    note='A single trailing newline at the end is accepted either way. Standard output is a buffering stand-in: only flushed text counts as written, both at each device command and at the end of the script.'),
  'C20': dict(
     technique='Hypothesis rule-based state machine over the production front end / web app / JobControl with a stub flask, recording jobs and cooperative job threads, compared with a dict/list model after every step',
     category='exploration',
     text='Stateful model-based testing over generated manifests (hostile strings) and request sequences interleaved with job completions; jobs created, the file each is built from, queue / current / background state, stop requests per job, escaped strings handed to templates, default path/title and status/capture rendering are compared with the model after every step.',
     design='DESIGN.md section 3, C20',
-    note='Flask and Jinja are not installed: flask is stubbed and escaping is asserted at construction of the script controls. Thread interleavings are out of scope here (C08/C09).'),
+    note='Flask and Jinja are not installed: flask is stubbed and escaping is asserted at construction of the script controls. Thread interleavings are out of scope here (C08/C09). The shipped web/manifest.json is additionally clicked through the routes front_end registers.'),
  'C08': dict(
-    technique='schedule exploration on a deterministic thread scheduler (real threads, one runnable at a time, yield before every source line of job_control.py and at every lock/thread operation): Hypothesis-generated scenarios x schedules, plus exhaustive enumeration of all schedules with <= 1 (quick) / <= 2 (thorough) preemptions for fixed scenarios; history checked by a Wing-Gong linearisability search against a deque model and invariants',
+    technique='(plus the documented command line lsrun a.ls b.ls ... in a real process with generated scripts) schedule exploration on a deterministic thread scheduler (real threads, one runnable at a time, yield before every source line of job_control.py and at every lock/thread operation): Hypothesis-generated scenarios x schedules, plus exhaustive enumeration of all schedules with <= 1 (quick) / <= 2 (thorough) preemptions for fixed scenarios; history checked by a Wing-Gong linearisability search against a deque model and invariants',
     category='exploration',
     text='The scheduler owns every thread switch, so interleavings between the individual statements of the controller are generated, enumerated for small scenarios, and replayable. Mutual exclusion, start order (linearisable w.r.t. add/insert), exactly-once, drain at quiescence, is_running observations, deadlock and lost wake-ups are checked on every explored schedule.',
     design='DESIGN.md sections 2.6 and 3, C08',
@@ -118,7 +118,7 @@ CHECKS = {
     category='exploration',
     text='Stops are delivered before the run loop, between instructions, inside delays, inside time-of-day waits and as the script finishes, under generated and (thorough) enumerated single preemptions; each run is checked for promptness in virtual time, at most one further command, the fate of the next / queued / re-queued job, and for deadlock or a lost stop (step limit).',
     design='DESIGN.md sections 2.6 and 3, C09',
-    note='"Promptly" is bounded liveness (two ticks + command in progress, step budget). The lost-stop-before-run-loop finding is repaired; stops are delivered in every state including before the run loop.'),
+    note='"Promptly" is bounded liveness (two ticks + command in progress, step budget). All lost-stop findings are repaired; the quick tier enumerates the races with the end of a job (one and two preemptions), the hand-over to the next queued job and stop-all with a queued job.'),
  'C10': dict(
     technique='discrete-event oracle in virtual time over the real Machine / Clock / JobControl on the deterministic scheduler: Hypothesis-generated delay / work / time-of-day sequences, tick lengths, wall-clock starts and clock-vs-script preemptions',
     category='exploration',
